@@ -92,16 +92,43 @@ def main(run):
         for c in MoleculeContainer.__mro__:
             s = getattr(c, '__slots__', ())
             slots |= set((s,) if isinstance(s, str) else s)
-        tree = tables.module_ast('chython/containers/molecule.py')
-        ex = tables.find_def(tree, 'MoleculeContainer.__exit__')
-        branch = next(s for s in ex.body if isinstance(s, ast.If)).body
-        assigned = {t.attr for s in branch for t in getattr(s, 'targets', []) if isinstance(t, ast.Attribute) and isinstance(t.value, ast.Name) and t.value.id == 'self'}
-        after = {t.attr for s in ex.body for t in getattr(s, 'targets', []) if isinstance(t, ast.Attribute)}
         need = slots - {'_conformers', '_backup'}
+        # the REAL __exit__ runs on an instance whose slots (and those of its backup) hold distinct opaque sentinels: the rollback path cannot
+        # depend on their values, so one run decides it for every state.  No statement of the method is addressed.
+        from vlib.env import Unanchored
+
+        class _S:
+            def __init__(self, tag):
+                self.tag = tag
+
+            def __repr__(self):
+                return f'<{self.tag}>'
+        live, backup = object.__new__(MoleculeContainer), object.__new__(MoleculeContainer)
+        for sl in sorted(slots - {'_backup'}):
+            if sl == '__dict__':
+                continue
+            object.__setattr__(live, sl, _S(f'live.{sl}'))
+            object.__setattr__(backup, sl, _S(f'backup.{sl}'))
+        live.__dict__.update(stale_cache=_S('live.cache'))
+        backup.__dict__.update(saved_cache=_S('backup.cache'))
+        object.__setattr__(live, '_backup', backup)
+        exc = ValueError('edit failed')
+        try:
+            swallowed = MoleculeContainer.__exit__(live, ValueError, exc, None)
+        except Exception as e:
+            raise Unanchored(f'MoleculeContainer.__exit__ on an instance with opaque slot values raised {type(e).__name__}: {e}')
+        got = {}
         for sl in sorted(need):
-            t_oblig(run, f'__exit__/rollback-restores-slot[{sl}]', sl in assigned, key=f'rollback-slot:{sl}',
-                    what=f'a failed transaction does not restore slot {sl}', witness={'assigned': sorted(assigned)})
-        t_oblig(run, '__exit__/clears-backup', '_backup' in after)
+            if sl == '__dict__':
+                got[sl] = (live.__dict__ == backup.__dict__ or live.__dict__ is backup.__dict__) and 'stale_cache' not in live.__dict__
+            else:
+                got[sl] = getattr(live, sl, None) is getattr(backup, sl)
+        for sl in sorted(need):
+            t_oblig(run, f'__exit__/rollback-restores-slot[{sl}]', got[sl], key=f'rollback-slot:{sl}',
+                    what=f'a failed transaction does not restore slot {sl}',
+                    witness={'slot': sl, 'after_rollback': repr(live.__dict__ if sl == '__dict__' else getattr(live, sl, None)), 'backup': repr(getattr(backup, sl, None))})
+        t_oblig(run, '__exit__/clears-backup', getattr(live, '_backup', 0) is None)
+        t_oblig(run, '__exit__/does-not-swallow-the-exception', not swallowed)
         # constructors bind every slot (the mutators read _changed / _backup unconditionally)
         from chython import smiles
         m = smiles('C[C@H](N)C(=O)O.Cl')
